@@ -53,7 +53,7 @@ def gen_case(h: Harness, b, ty, pymh, label):
         return create_node(gc, pyty, LocalSynthesisContext(1, 0, 1, {}), {})
     n = 0
     try:
-        for script, v in enumerate_scripts(make, limit=20000):
+        for script, v in enumerate_scripts(make, limit=20000, lift=True):
             n += 1
             c = gram.canon(v, b)
             site = f"{label}.generate"
@@ -86,7 +86,7 @@ def boxes(h: Harness):
         for hi in range(lo, 4):
             for inner in (("cls", 0), ("ann", "int", ("intRange", 0, 1))):
                 gen_case(h, b, ("ann", ("list", inner), ("listSize", lo, hi)), ListSizeBetween(lo, hi), "ListSizeBetween")
-    for al in (["a"], ["a", "b"], ["a", "b", "c"]):
+    for al in (["a"], ["a", "b"], ["a", "b", "c"], ["c"], ["b", "c"]):  # (same bounds, different alphabets in one process)
         for lo in range(0, 3):
             for hi in range(lo, 3 if len(al) < 3 else 2):
                 gen_case(h, b, ("ann", "str", ("strSize", lo, hi, al)), StringSizeBetween(lo, hi, al), "StringSizeBetween")
